@@ -22,6 +22,9 @@ CLAIMED["C02"] = dict(level="model_checking", technique="stateless model checkin
 CLAIMED["C07"] = dict(level="exploration", technique="bounded exhaustive enumeration of event streams on the real encoders, output judged by independent reference decoders",
    text="The C01 stream language is written by the real encoders and read back by refjson/refcbor/refubj: exactly one complete value equal to the stream's value; JSON byte-level rules (UTF-8, control characters, HTML escaping, radix point, non-finite floats) checked on every output.",
    note="reference decoders are the trusted format definitions", ref="DESIGN.md §5 C07")
+CLAIMED["C03"] = dict(level="exploration", technique="exhaustive enumeration of byte strings (all 256-ary strings <=2, reduced-alphabet strings <=L, argument sweep, single-edit neighbourhoods) x entry points x chunkings on the real parsers/decoders with a deterministic step budget and allocation meter",
+   text="Every byte string of the bounded spaces is run through Parse, ParseString, ParseReader, Write, the byte-slice and the reader pull decoders under whole / single-cut / single-byte chunkings; the oracle is no panic, a deterministic budget of instrumented steps (hang detection without wall clock), an allocation bound measured with runtime/metrics, termination of the Next loop, and truncated input (reference verdict) reported as an error other than io.EOF.",
+   note="bytes outside the reduced alphabets beyond length 2 are represented by default-branch symbols; step budget counts instrumented function entries/loop iterations; UBJSON documents whose counted payload-less typed containers denote more events than the step budget are excluded from the budget oracle (amplification is inherent in the format)", ref="DESIGN.md §5 C03")
 REASONS = {}
 
 def main():
